@@ -5,8 +5,8 @@ from concurrent.futures import ThreadPoolExecutor
 import vlib, e2e
 from vlib import sh2, CACHE, TieBroken
 
-WIDTH = {"char": 8, "unsigned char": 8, "short": 16, "unsigned short": 16, "int": 32, "unsigned": 32, "long": 64, "unsigned long long": 64, "_Bool": 1}
-SIGNED = {"char": True, "unsigned char": False, "short": True, "unsigned short": False, "int": True, "unsigned": False, "long": True, "unsigned long long": False, "_Bool": False}
+WIDTH = {"u64a4": 64, "i64a2": 64, "char": 8, "unsigned char": 8, "short": 16, "unsigned short": 16, "int": 32, "unsigned": 32, "long": 64, "unsigned long long": 64, "_Bool": 1}
+SIGNED = {"u64a4": False, "i64a2": True, "char": True, "unsigned char": False, "short": True, "unsigned short": False, "int": True, "unsigned": False, "long": True, "unsigned long long": False, "_Bool": False}
 
 
 def values(w, r):
@@ -34,7 +34,29 @@ def run(ck):
             hdr = g.header(14)
             recs = [x for x in g.recs if any(m["bitfield"] and m["name"] for m in x.members)]
             if recs:
-                batches.append((b, recs, "\n".join(x.text() for x in g.recs)))
+                batches.append((b, recs, g.prelude() + "\n".join(x.text() for x in g.recs)))
+
+        # targeted family: a bit-field of a 64-bit type that straddles an 8-byte boundary at every byte position
+        # (only possible when the type's alignment is below its size; with natural alignment C starts a new unit)
+        fam = []
+        k = 0
+        for base in ("u64a4", "i64a2", "unsigned long long", "long"):
+            for lead in (8, 16, 24, 40, 48, 56):
+                for w in (9, 17, 30, 33):
+                    rec = e2e.Rec("F%d" % k)
+                    rec.members = [{"name": "a", "decl": "%s a : %d" % (base, lead), "bitfield": (base, lead), "anon": False},
+                                   {"name": "b", "decl": "%s b : %d" % (base, w), "bitfield": (base, w), "anon": False},
+                                   {"name": "c", "decl": "unsigned char c : 3", "bitfield": ("unsigned char", 3), "anon": False}]
+                    rec.features = {"bitfield"} | ({"member-aligned"} if base in ("u64a4", "i64a2") else set())
+                    fam.append(rec)
+                    k += 1
+        if quick:
+            # every reduced-alignment record, a sample of the naturally aligned ones
+            red = [x for x in fam if "member-aligned" in x.features]
+            nat = [x for x in fam if "member-aligned" not in x.features]
+            r.shuffle(nat)
+            fam = red + nat[:8]
+        batches.append((9000, fam, e2e.PRELUDE_ATTR + "\n".join(x.text() for x in fam)))
 
         def one(bt):
             b, recs, hdr = bt
@@ -73,6 +95,7 @@ def judge(ck, rec, res, hdr):
         ck.violation("C03-e2e-%s:%s:%s" % (kind, code or "other", grp), "the bindings of a record with bit-fields do not build (%s)" % msg[:140], dict(data, error=msg[:600]))
         return
     mm = res.get("mismatch", {}).get(rec.name, [])
+    seen_cls = set()
     for m in mm:
         # m = (field, kind, value, detail)
         field, kind, v, detail = m
@@ -89,8 +112,11 @@ def judge(ck, rec, res, hdr):
         else:
             cls = "C03-%s:%s" % ("setter" if kind == "set" else "getter", grp)
             what = "%s disagrees with C" % ("stored bytes after the setter" if kind == "set" else "value read by the getter")
-        ck.violation(cls, what, dict(data, field=field, value=v, detail=detail))
-        break
+        if cls in seen_cls:
+            continue
+        seen_cls.add(cls)
+        if ck.violation(cls, what, dict(data, field=field, value=v, detail=detail)):
+            break
 
 
 def shifted(detail):
